@@ -26,6 +26,8 @@ CHECKS = {
  "C04": ("exploration", "bounded-exhaustive clause permutations / repetitions and program sequences on a reused engine", "All permutations of the non-query clauses and every single-clause duplication of every generated program (F1-F6) x small EDBs must answer like the original order and like R1; all ordered pairs and triples of a program pool on one reused IQLEngine must leave the last answer and the stored base facts unchanged.", "R1 oracle; mutual-recursion order dependence is a listed known finding (same root cause as C01)", "2/C04", "E1"),
  "C26": ("exploration", "exhaustive finite-domain law checking + explicit-state exploration of LSH cache operation sequences", "Distance/quantization/probe laws on complete small grids (incl. zero and 1e6 magnitudes, int8 extremes); every sequence up to depth 4/5 over 14 cache operations must return the bucket computed in a cleared cache.", "tolerance 1e-5; sequential cache leg is single-threaded because the cache is process-global; interleavings of cache users are explored by the E4 leg when present", "2/C26", "E5"),
  "C36": ("model_checking", "explicit-state exploration of all bounded insert/remove/rebuild/clear histories on the real BloomFilter and HashIndex vs a multiset model", "51 filter parameterisations (incl. degenerate 0/1/63/65 bits, 0/100 hashes) x all insert/clear sequences to depth 5/7 over 6 keys; 3 key-column specs x all histories to depth 4/6 over 14 operations; lookups compared with a multiset model after every step.", "harness structural tuple equality (bitwise floats) is the key-equality oracle", "2/C36", "E2"),
+ "C24": ("model_checking", "explicit-state exploration of all bounded index histories on the real HnswIndex vs a brute-force reference, with the level generator's entropy owned by the harness (default + one deviation)", "All histories to depth 3/4 over insert/update/delete/rebuild/batch x 4 metrics; after each: 5 queries x k x ef; every result list checked against the brute-force reference (live ids, order, exact metric values, true k nearest when live <= ef). Each history is run with the benign level seed and with every single deviation (graph build r gives point j an upper layer).", "getrandom shim pins hnsw_rs's level seed; the level model is validated against hnsw_rs on every run; dot-product exact values on unit-norm inputs only", "2/C24", "E2"),
+ "C25": ("model_checking", "explicit-state exploration of bounded index histories incl. save/load at every position vs a reference map", "C24's alphabet plus HnswIndex::save/load and IndexManager::save_indexes/load_indexes; after each history the live id set with latest vectors (observed by exhaustive search), len-tombstones, metric/config and dimension must equal the reference.", "same entropy ownership as C24", "2/C25", "E2"),
 }
 NA_DEFAULT = "check not built yet in this round (work in progress; DESIGN.md section 6 build order)"
 
@@ -50,7 +52,7 @@ m = {
  "engines": [
    {"name": "E1", "path": "harness/src/e1.rs", "serves_properties": ["C01","C02","C03","C04","C06","C07","C08"], "kind_free_text": E1},
    {"name": "E5", "path": "harness/src/e5.rs", "serves_properties": ["C26","C28","C31"], "kind_free_text": "E5 FIN: nested loops over complete finite domains"},
-   {"name": "E2", "path": "harness/src/e2_store.rs, harness/src/e2_handler.rs, harness/src/e2_index.rs", "serves_properties": [k for k,v in CHECKS.items() if v[5]=="E2"], "kind_free_text": "E2 HIST: explicit-state exploration of all operation sequences up to a depth bound over a small alphabet, every sequence executed on real StorageEngine / Handler objects and compared with a reference model after every step"},
+   {"name": "E2", "path": "harness/src/e2_store.rs, harness/src/e2_handler.rs, harness/src/e2_index.rs, harness/src/e2_hnsw.rs", "serves_properties": [k for k,v in CHECKS.items() if v[5]=="E2"], "kind_free_text": "E2 HIST: explicit-state exploration of all operation sequences up to a depth bound over a small alphabet, every sequence executed on real StorageEngine / Handler objects and compared with a reference model after every step"},
  ],
  "checks": [],
  "not_applicable": [],
